@@ -1,26 +1,31 @@
 #!/bin/bash
-# Rebuild everything the checks need from /repo's current working tree:
-#   1. regenerate coq/Gen/*.v from the Rust sources
-#   2. build the Coq development (full .vo build) -- this also re-extracts ocaml/wf_model.ml
-#   3. build the OCaml checker driver
+# Rebuild what the checks need from /repo's current working tree:
+#   1. regenerate coq/Gen/*.v from the Rust sources (translators tools/gen_formats.py, tools/gen_tables.py)
+#   2. build the Coq targets given as arguments (default: all) -- full .vo build; Extract/Extract.vo
+#      re-extracts ocaml/wf_model.ml
+#   3. build the OCaml checker driver when the extracted code changed
 #   4. build the Rust harness against /repo with the `verif` feature
-# Usage: tools/build.sh [make-target ...]      (default target: all)
-set -e
+# Exit status: non-zero if the Coq targets or the harness failed to build (later steps still run,
+# so that a search for a failing input remains possible with the last good checker).
 cd "$(dirname "$0")/.."
 V=$(pwd)
-exec 9>"$V/.build.lock"; flock 9
+mkdir -p "$V/build"
+exec 9>"$V/build/.lock"; flock 9
 export CARGO_NET_OFFLINE=true
-python3 tools/gen_formats.py /repo coq/Gen
-[ -f tools/gen_tables.py ] && python3 tools/gen_tables.py /repo coq/Gen
+python3 tools/gen_formats.py /repo coq/Gen || exit 3
+python3 tools/gen_tables.py /repo coq/Gen || exit 3
 cd coq
 if [ ! -f Makefile ] || [ _CoqProject -nt Makefile ]; then coq_makefile -f _CoqProject -o Makefile >/dev/null; fi
-timeout 1500 make -j16 "${@:-all}" 2>&1 | grep -v '^COQDEP\|^COQC\|^make\[' || true
-test "${PIPESTATUS[0]}" = 0
+timeout 1500 make -j16 "${@:-all}" > ../build/coq-build.log 2>&1
+rc1=$?
+if [ $rc1 != 0 ]; then grep -B2 -A12 '^Error\|Error:' ../build/coq-build.log | head -60; fi
 cd ../ocaml
-if [ ! -x wfcheck ] || [ wf_model.ml -nt wfcheck ] || [ driver.ml -nt wfcheck ]; then
-  ocamlfind ocamlopt -O3 -w -a wf_model.mli wf_model.ml driver.ml -o wfcheck 2>&1 | grep -v "options -O3 is only" || true
+if [ -f wf_model.ml ] && { [ ! -x wfcheck ] || [ wf_model.ml -nt wfcheck ] || [ driver.ml -nt wfcheck ]; }; then
+  ocamlfind ocamlopt -O3 -w -a wf_model.mli wf_model.ml driver.ml -o wfcheck.new 2>&1 | grep -v "options -O3 is only" ; [ -x wfcheck.new ] && mv wfcheck.new wfcheck
 fi
 cd ../harness
-cp /repo/Cargo.lock Cargo.lock 2>/dev/null || true
-cargo build --offline 2>&1 | grep -E "^(warning: unused|error)|could not compile" || true
-test -x target/debug/wfh
+cp /repo/Cargo.lock Cargo.lock 2>/dev/null
+cargo build --offline > ../build/cargo-build.log 2>&1
+rc2=$?
+if [ $rc2 != 0 ]; then grep -A12 '^error' ../build/cargo-build.log | head -40; fi
+[ $rc1 = 0 ] && [ $rc2 = 0 ]
